@@ -1087,6 +1087,12 @@ pub struct TermProgram {
     #[serde(default)]
     pub fail_count: u8,
     pub fail_heals_after_ms: u16,
+    /// repeat the transient fault every this many I/O calls (0 = once)
+    #[serde(default)]
+    pub fail_period: u16,
+    /// 0 = any write/fsync, 1 = record (data) writes only, 2 = journal writes only, 3 = fsyncs only
+    #[serde(default)]
+    pub fail_site: u8,
     pub writers: u8,
     pub writer_ops: u16,
     pub readers: u8,
@@ -1101,13 +1107,13 @@ pub struct TermProgram {
 pub fn term_program_strategy() -> BoxedStrategy<TermProgram> {
     (
         (prop_oneof![Just(2u8), Just(4u8), Just(8u8), Just(16u8)], prop_oneof![3 => 20u16..60, 1 => Just(500u16)], any::<bool>(), any::<bool>()),
-        (prop_oneof![3 => Just(0u16), 3 => 5u16..160], prop_oneof![Just(0u8), Just(1u8), Just(3u8), Just(4u8), Just(9u8)], prop_oneof![Just(0u16), Just(30), Just(200)]),
+        (prop_oneof![3 => Just(0u16), 3 => 5u16..160], prop_oneof![Just(0u8), Just(1u8), Just(3u8), Just(3u8), Just(4u8), Just(9u8)], prop_oneof![Just(0u16), Just(30), Just(200)], prop_oneof![1 => Just(0u16), 2 => 7u16..90], prop_oneof![2 => Just(0u8), 3 => Just(1u8), 1 => Just(2u8), 1 => Just(3u8)]),
         (1u8..4, 20u16..200, 0u8..3, 1u8..4, proptest::bool::weighted(0.3)),
         (2u8..12, 0u8..4),
         prop_oneof![3 => Just(DropMode::Quiescent), 2 => Just(DropMode::WhileBusy), 1 => Just(DropMode::SweeperLast)],
         sched::schedule_strategy(),
     )
-        .prop_map(|((visible_cpus, data_blocks, plain_io, cache), (fail_from, fail_count, fail_heals_after_ms), (writers, writer_ops, readers, flushers, sweeper), (keys, value_blocks), drop_mode, schedule)| TermProgram {
+        .prop_map(|((visible_cpus, data_blocks, plain_io, cache), (fail_from, fail_count, fail_heals_after_ms, fail_period, fail_site), (writers, writer_ops, readers, flushers, sweeper), (keys, value_blocks), drop_mode, schedule)| TermProgram {
             visible_cpus,
             data_blocks,
             plain_io: plain_io || fail_from > 0,
@@ -1115,6 +1121,8 @@ pub fn term_program_strategy() -> BoxedStrategy<TermProgram> {
             fail_from,
             fail_count,
             fail_heals_after_ms,
+            fail_period: if fail_count == 0 { 0 } else { fail_period },
+            fail_site,
             writers,
             writer_ops,
             readers,
@@ -1140,7 +1148,7 @@ pub struct TermOutcome {
 /// Runs to completion or is killed by the watchdog (the caller journals the program first).
 pub fn run_term_program(p: &TermProgram) -> TermOutcome {
     feoxdb::verif::set_thread_clock(None);
-    let cfg = Config { persistent: true, version: 3, cache: p.cache, ttl: p.sweeper, dev: DevSize::Tiny(p.data_blocks), max_memory: None, plain_io: p.plain_io, legacy_plain_meta: false, visible_cpus: p.visible_cpus };
+    let cfg = Config { persistent: true, version: 3, cache: p.cache, ttl: true, dev: DevSize::Tiny(p.data_blocks), max_memory: None, plain_io: p.plain_io, legacy_plain_meta: false, visible_cpus: p.visible_cpus };
     let path = env::fresh_path("term");
     std::fs::File::create(&path).expect("create");
     let dev = crate::trace::register(&path, false);
@@ -1153,7 +1161,7 @@ pub fn run_term_program(p: &TermProgram) -> TermOutcome {
     }
     if p.fail_from > 0 {
         let base = dev.lock().unwrap().io_calls;
-        dev.lock().unwrap().plan = Some(crate::trace::FaultPlan { from: base + p.fail_from as usize, count: if p.fail_count == 0 { usize::MAX } else { p.fail_count as usize }, mode: if p.fail_from % 2 == 0 { crate::trace::FaultMode::Before } else { crate::trace::FaultMode::After }, errno: libc::EIO, second: None });
+        dev.lock().unwrap().plan = Some(crate::trace::FaultPlan { from: if p.fail_site == 0 { base + p.fail_from as usize } else { (p.fail_from / 8) as usize }, count: if p.fail_count == 0 { usize::MAX } else { p.fail_count as usize }, mode: if p.fail_from % 2 == 0 { crate::trace::FaultMode::Before } else { crate::trace::FaultMode::After }, errno: libc::EIO, second: None, period: p.fail_period as usize, site: match p.fail_site { 1 => Some("data-write"), 2 => Some("journal-write"), 3 => Some("fsync"), _ => None } });
     }
     let ctl = Controller::new(p.schedule.clone());
     sched::install(Some(ctl.clone()));
@@ -1180,7 +1188,13 @@ pub fn run_term_program(p: &TermProgram) -> TermOutcome {
                 let k = key((i * 7 + w * 3) % nkeys);
                 let _g = env::watch("C18 writer call");
                 enter(&inside, &max_inside);
-                match (i + w) % 7 {
+                match (i + w) % 9 {
+                    7 => {
+                        let _ = store.update_ttl(&k, 3600);
+                    }
+                    8 => {
+                        let _ = if i % 2 == 0 { store.persist(&k) } else { store.update_ttl(&k, 7200) };
+                    }
                     0 | 1 | 2 => {
                         let mut v = vec![0u8; if vb == 0 { 60 } else { vb * 4096 - 100 + (i % 50) }];
                         seq::stamp_fill(&mut v, (i % nkeys) as u16, i as u32);
